@@ -105,6 +105,8 @@ type Step struct {
 	Match map[string]any `json:"match,omitempty"`
 	Ms    int            `json:"ms,omitempty"`
 	N     int            `json:"n,omitempty"`
+	// the bound that governs this call in ms (default: CtxMs); logged with ApiCall/ApiRet for the timing monitors
+	BoundMs int `json:"boundMs,omitempty"`
 }
 
 type ConnCfg struct {
@@ -168,14 +170,15 @@ type Driver struct {
 	b    *Broker
 	conn *iscp.Conn
 
-	mu    sync.Mutex
-	ups   map[string]*iscp.Upstream
-	downs map[string]*iscp.Downstream
-	sids  map[string]string // obj -> sid
-	procs map[string]*proc
-	incon []string // reasons the run is inconclusive
-	wd    time.Duration
-	calls map[string]string // tag -> callID
+	mu     sync.Mutex
+	ups    map[string]*iscp.Upstream
+	downs  map[string]*iscp.Downstream
+	sids   map[string]string // obj -> sid
+	procs  map[string]*proc
+	incon  []string // reasons the run is inconclusive
+	wd     time.Duration
+	calls  map[string]string // tag -> callID
+	bounds map[string]int    // process -> bound (ms) of the call it is executing
 }
 
 func NewDriver(sc *Scenario) *Driver {
@@ -259,7 +262,10 @@ func (d *Driver) ctx(ms int) (context.Context, context.CancelFunc) {
 
 // api wraps one API call with ApiCall/ApiRet events and a watchdog.
 func (d *Driver) api(g, op, obj string, kv []any, f func() (error, []any)) error {
-	kv = append([]any{"g", g, "op", op, "obj", obj}, kv...)
+	d.mu.Lock()
+	bound := d.bounds[g]
+	d.mu.Unlock()
+	kv = append([]any{"g", g, "op", op, "obj", obj, "boundMs", bound}, kv...)
 	ci := d.rec.Log("ApiCall", kv...)
 	start := time.Now()
 	done := make(chan struct{})
@@ -282,7 +288,7 @@ func (d *Driver) api(g, op, obj string, kv []any, f func() (error, []any)) error
 		err, res = f()
 	}()
 	close(done)
-	out := []any{"g", g, "op", op, "obj", obj, "err", ErrClass(err), "isISCP", isISCP(err), "durMs", int(time.Since(start) / time.Millisecond), "ci", ci}
+	out := []any{"g", g, "op", op, "obj", obj, "err", ErrClass(err), "isISCP", isISCP(err), "durMs", int(time.Since(start) / time.Millisecond), "ci", ci, "boundMs", bound}
 	out = append(out, res...)
 	d.rec.Log("ApiRet", out...)
 	return err
@@ -418,6 +424,16 @@ func normNum(v any) any {
 }
 
 func (d *Driver) exec(st *Step, g string) {
+	b := st.BoundMs
+	if b == 0 {
+		b = st.CtxMs
+	}
+	d.mu.Lock()
+	if d.bounds == nil {
+		d.bounds = map[string]int{}
+	}
+	d.bounds[g] = b
+	d.mu.Unlock()
 	switch st.A {
 	case "connect":
 		opts := []iscp.ConnOption{
@@ -732,6 +748,9 @@ func (d *Driver) exec(st *Step, g string) {
 	case "rule":
 		if st.Rule != nil {
 			r := *st.Rule
+			if r.Obj != "" {
+				r.Sid = d.sid(r.Obj)
+			}
 			d.b.AddRule(&r)
 		}
 	case "clearRules":
